@@ -221,6 +221,10 @@ Definition is_sidecar_for (self obj : bfile) : bool :=
   else if negb (path_eqb (b_dir self) (commonpath (full_path obj) (full_path self))) then false
   else ents_subset (b_ents self) (b_ents obj).
 
+(* the same BidsFile with its real (absolute) path: the root's components in front of the directory *)
+Definition abs_file (rootp : path) (f : bfile) : bfile :=
+  mkB (rootp ++ b_dir f) (b_name f) (b_suffix f) (b_ext f) (b_ents f) (b_raw f).
+
 (* ------------------------------------------------------------------ directory tree and os.walk *)
 
 (* a directory: its files (name, parsed JSON content) and its sub-directories,
@@ -245,6 +249,24 @@ with walk_forest (excl : list str) (f : forest) : list (path * list (str * optio
   | FCons n t r =>
       if in_names n excl then walk_forest excl r
       else map (fun e => (n :: fst e, snd e)) (walk excl t) ++ walk_forest excl r
+  end.
+
+(* The same walk as the code starts it, os.walk(root_path): the dataset root is given by its absolute
+   components [cur] (the root's own name last), os.walk yields absolute directory paths, and the
+   pruning statement looks at the names in [dirs] -- the directories BELOW the one being visited --
+   never at the name of the start directory or of a component above it.  Proofs/BidsProofs.v shows
+   that this is [walk] with every path prefixed by the root (os_walk_is_walk), so the group computed
+   from paths relative to the root does not depend on where the dataset lies or what its root is called. *)
+Fixpoint os_walk (excl : list str) (cur : path) (t : tree) : list (path * list (str * option jdict)) :=
+  match t with
+  | Node files subs => (cur, files) :: os_walk_forest excl cur subs
+  end
+with os_walk_forest (excl : list str) (cur : path) (f : forest) : list (path * list (str * option jdict)) :=
+  match f with
+  | FNil => []
+  | FCons n t r =>
+      if in_names n excl then os_walk_forest excl cur r
+      else os_walk excl (cur ++ [n]) t ++ os_walk_forest excl cur r
   end.
 
 (* get_file_list(root, name_suffix=suffix, extensions=[ext], exclude_dirs=excl) *)
@@ -311,9 +333,9 @@ Fixpoint lookup_contents (s : bfile) (conts : list (bfile * jdict)) : res jdict 
   end.
 
 (* the second loop of BidsFileGroup.__init__ for one data file.
-   fixed = false (the code before the fix: commit, kept as the record of finding C16-F1):
+   fixed = false (the behaviour before fix commit be9bad3, kept as the record of the repaired finding C16-F1):
      sidecar_list = get_sidecars_from_path(obj); obj.sidecar = sidecar_dict[sidecar_list[-1]]
-   fixed = true (the code as it is now):
+   fixed = true (the code as it is now, since fix commit be9bad3):
      merged = BidsSidecarFile(sidecar_list[-1]); merged.set_contents(content_info=sidecar_list);
      obj.sidecar = merged *)
 Definition data_sidecar (fixed : bool) (sc : list bfile) (conts : list (bfile * jdict)) (obj : bfile)
